@@ -1502,3 +1502,5 @@ V("C13-deep-copier-keeps-dicts", "C13", "the deep copier no longer rebuilds nest
   "    if isinstance(value, dict):\n        return {key: copy_basic_value(item) for key, item in value.items()}\n    return value", "    return value")
 V("C13-list-default-deepcopy", "C13", "copy.deepcopy instead of the package's copier", "cincoconfig/fields/list_field.py",
   "            default = copy_basic_value(default)\n", "            import copy\n            default = copy.deepcopy(default)\n", expect="silent")
+VP("C11-R4D-mut-nested-list-dropped", "C11", "nested errors collected but the list handed up is dropped", "C11-R4D", CORE,
+   "                errors.extend(\n                    self._validate_field(config, field, collect_errors=collect_errors)\n                )", "                self._validate_field(config, field, collect_errors=collect_errors)")
